@@ -342,6 +342,22 @@ func main() {
 			"serverUserCipherConfig, ok := s.CredStore.LookupUser(uPSKHash) if !ok { return nil, \"\", ErrIdentityHeaderUserPSKNotFound } userCipherConfig = serverUserCipherConfig.UserCipherConfig username = serverUserCipherConfig.Name } aead, err := userCipherConfig.AEAD(b[:8])"); err != nil {
 			return err
 		}
+		// the deferred unsafe-fallback branch of HandleStream: the connection did not authenticate; does it hand back a
+		// FRESH request (no username), or does it keep the named result, whose Username the identity lookup already set?
+		hs, err := q.Func("*StreamServer", "HandleStream")
+		if err != nil {
+			return err
+		}
+		hsSrc := q.Src(hs.Body)
+		const freshFallback = "if n > 0 && s.unsafeFallbackAddr.IsValid() { logger.Warn(\"Initiating fallback for unauthenticated connection\", zap.Error(err)) req = netio.ConnRequest{ PendingConn: netio.NopPendingConn(rawRW), Addr: s.unsafeFallbackAddr, Payload: readBuf[:n], } err = nil return }"
+		switch {
+		case strings.Count(hsSrc, "s.unsafeFallbackAddr") != 2 || strings.Count(hsSrc, "req.Username") != 1:
+			return fmt.Errorf("ss2022.(*StreamServer).HandleStream: fallback / username handling changed shape")
+		case strings.Contains(hsSrc, freshFallback):
+			l.BoolDef("fallbackFreshRequest", true, "ss2022.(*StreamServer).HandleStream: the fallback branch assigns a fresh netio.ConnRequest literal without Username")
+		default:
+			l.BoolDef("fallbackFreshRequest", false, "ss2022.(*StreamServer).HandleStream: the fallback branch does NOT replace the named result by a fresh request")
+		}
 		if err := bodyIs(q, "", "NewServerUserCipherConfig", "{ c.UserCipherConfig, err = NewUserCipherConfig(psk, enableUDP) c.Name = name return }"); err != nil {
 			return err
 		}
